@@ -1,8 +1,11 @@
 ----------------------------- MODULE CompileSem -----------------------------
 (* C01 / C03: what bqskit.compile() returned means what its input means -- decided on the exact (monomial) domain.
 
-   A case is one call of compile():  status ("ok" | "raised"), items (the inputs: one, or several for a list input),
-   results (what came back, in the order it came back).
+   A case is one call of compile():  status ("ok" | "raised" | "rejected"), items (the inputs: one, or several for a
+   list input), results (what came back, in the order it came back).  "rejected" = compile() refused the call in its own
+   argument checks with a documented ValueError / TypeError before anything ran (nothing to judge: not a violation);
+   "raised" = a compilation that was accepted failed with an exception (both statements quantify over every accepted
+   / supported input, so that is a violation, clause compile-raised).
 
    item:    kind  "circuit"  r (logical radixes), ops (Monomial.tla op records in program order; g = "BARRIER" and
                               g = "MEASURE" (loc = measured qudits, p = classical bit of each, register "c") are placeholders)
@@ -18,6 +21,12 @@
 
    The logical register is embedded at the physical qudits pi (all other physical qudits |0>), read back from pf
    (all other physical qudits must be |0> again), one global phase is free.
+
+   C03 is read the same way ("reaches its target" under the returned mappings, which are the identity unless compile()
+   says otherwise): at optimization level 4 compile() synthesises a unitary up to an input and an output permutation
+   and reports them as the mappings (PermutationAwareSynthesisPass), so the weaker reading -- the one under which
+   that documented behaviour is correct -- is the one taken here; for a state only |0..0> is fed in, for a state
+   system only the listed inputs, and a state system is compared up to ONE common phase.
 
    Clauses   C01: compile-raised, mapping-out-of-range, mapping-not-injective, semantics-differ, measurement-misplaced
              C03: compile-raised, target-not-reached, list-order                                                     *)
@@ -81,15 +90,19 @@ Reach(it, res) ==
   ELSE "ok"
 
 Verdict ==
-  IF C.status # "ok" THEN "compile-raised"
+  IF C.status = "rejected" THEN "ok"
+  ELSE IF C.status # "ok" THEN "compile-raised"
   ELSE IF Len(C.results) # Len(C.items) THEN "list-order"
-  ELSE LET v == TLCEval([k \in 1..Len(C.items) |-> Reach(C.items[k], C.results[k])])
-           bad == {k \in 1..Len(C.items) : v[k] # "ok"}
+  ELSE LET n == Len(C.items)
+           v == TLCEval([k \in 1..n |-> Reach(C.items[k], C.results[k])])
+           bad == {k \in 1..n : v[k] # "ok"}
        IN IF bad = {} THEN "ok"
-          ELSE LET k == CHOOSE x \in bad : \A y \in bad : x <= y IN
-               \* a result that is right for another input of the list: the results are not in the order of the inputs
-               IF \E j \in 1..Len(C.items) : j # k /\ Reach(C.items[j], C.results[k]) = "ok" /\ Reach(C.items[k], C.results[j]) # "ok"
-               THEN "list-order" ELSE v[k]
+          ELSE LET k == CHOOSE x \in bad : \A y \in bad : x <= y
+                   \* fits[j][i]: result i is right for input j
+                   fits == TLCEval([j \in 1..n |-> [i \in 1..n |-> IF i = j THEN v[j] = "ok" ELSE Reach(C.items[j], C.results[i]) = "ok"]])
+               IN \* every result is right for SOME input, each input is served, but not in the order of the inputs
+                  IF n >= 2 /\ \E p \in Permutations(1..n) : \A i \in 1..n : fits[p[i]][i]
+                  THEN "list-order" ELSE v[k]
 
 Init == tid \in 1..Len(Cases)
 Next == UNCHANGED tid
